@@ -233,3 +233,8 @@ class ConnIdentityUnit(_Unit):
 
 
 UNITS.append(ConnIdentityUnit())
+
+
+def extra_checks(tier, seed, pool):
+    from .recvunit import bounded_histories
+    return bounded_histories('C05', tier)
